@@ -385,6 +385,13 @@ def run(ctx):
     for k, c in enumerate(wf):
         if mod[base + k] != "0" and impl[base + k] == "0":
             ctx.fail("tape-not-wf", "a tape produced by the parser violates TapeWf.tape_wf (clause %s)" % mod[base + k], [c], [impl[base + k]], "0")
+    # >>> a_dom (wave 4): wide objects (many duplicate keys) and deep documents join every stream below
+    from props import C17_iter
+    extra = parse_docs(ctx, C17_iter.extra_docs(ctx, ctx.scale(120, 1200), ctx.scale(120, 1200)), stream="parse_extra")
+    ctx.count("extra documents (wide / deep)", len(extra))
+    main_parsed = parsed
+    parsed = parsed + extra
+    # <<<
     cases, meta = dom_cases(parsed)
     for (toks, idx) in meta:
         ctx.count("node:" + ("top" if idx == "top" else toks[int(idx)][0]))
@@ -400,6 +407,9 @@ def run(ctx):
     for k, c in enumerate(sample):
         if dimpl[db + k] in ("PANIC", "ABORT", "HANG"):
             ctx.fail("dom-crash", "DOM API crashes in a debug build", [c], [dimpl[db + k]], "no panic")
+    # >>> a_dom (wave 4): iterators at every iteration point, value readers of every yielded value
+    C17_iter.run_iter(ctx, main_parsed, extra)
+    # <<<
 
 
 def search(ctx):
